@@ -195,7 +195,7 @@ CHECKS = {
         exhaustive_whole=True,
         technique="exhaustive enumeration of the layout product against the harness's own decision table + reference decryptor; library and network routes",
         rule="layouts from the product {PS3ISO, ps3iso, Ps3Iso, PS3ISOX, GAMES} x {.iso,.ISO,.Iso,.bin} x nesting 0..2 below the PS3ISO element x {no key, adjacent, REDKEY, both "
-             "with different keys, malformed adjacent, malformed adjacent + REDKEY} x {no watermark, encrypted 3k3y watermark with embedded key, decrypted watermark} x file length "
+             "with different keys, malformed adjacent, malformed adjacent + REDKEY; in a separate block: a directory, a self-referencing symbolic link or a unix socket named like the adjacent key file, with and without a REDKEY key} x {no watermark, encrypted 3k3y watermark with embedded key, decrypted watermark} x file length "
              "{0xF6F, 0xF70, 0x106F, 0x1070, 8 sectors, 8 sectors+100} x {directly under the root, below a prefix directory}; both tiers enumerate the whole product (15 120 layouts + 48 long-name cases). the "
              "view obtained through FS.Open (2/3) or the network server (1/3) must equal the reference chosen by "
              "the decision table (adjacent key > REDKEY key > embedded 3k3y key + mask > mask only > identity), read as a whole and through 13 windows overlapping 0xF70..0x1070 by "
@@ -302,7 +302,7 @@ CHECKS = {
              "how many clients are served at once, whether an idle connection is cut within 2 s, whether debug lines appear, whether every stdout line parses as JSON, on which port pprof "
              "answers); every flag-vs-other-channel pair with conflicting values must show the flag's effect; other channel pairs (all in thorough, 1/3 in quick) must show one of the two "
              "values; a malformed value for whitelist / max-clients / root / read-timeout in any channel must stop start-up (nothing listening, non-zero exit, no crash). non-trivial = two "
-             "channels in conflict, or a non-flag channel alone; distinct by (setting, channel list, values). Malformed forms per security-relevant setting: wrong syntax, a second wrong form (root = a regular file, 300.1.1.1, 1.5, a duration without unit), the empty value. Every second case runs in a working directory that holds directories named server, decrypt and make-iso. Home cases: --config=~/f.ini and PS3NETSRV_CONFIG_FILE=~/f.ini with the file in the user's real home directory (skipped when it is not writable), incl. a missing one",
+             "channels in conflict, or a non-flag channel alone; distinct by (setting, channel list, values). Malformed forms per security-relevant setting: wrong syntax, a second wrong form (root = a regular file, 300.1.1.1, 1.5, a duration without unit), the empty value. Every second case runs in a working directory that holds directories named server, decrypt and make-iso. Home cases: --config=~/f.ini and PS3NETSRV_CONFIG_FILE=~/f.ini with the file in the user's real home directory (skipped when it is not writable), incl. a missing one. File states per channel: missing, broken (unclosed section header), UTF-16LE with byte order mark (what a windows editor calls Unicode)",
         assumptions=["the real binary built from the working tree is observed through TCP, stdout, exit status and /proc; precedence between non-flag channels is a don't-care (one of the given values)"],
         units=[
             dict(test="TestC19Config", unit="config", kind="enum", shards=(16, 16), bin=True),
@@ -335,7 +335,7 @@ CHECKS = {
              "must be answered, the worker must be alive and its output free of 'panic:'/'fatal error:'. unit content: mutated PARAM.SFO / region-table / key / 3k3y contents and hostile trees fed to "
              "FS.Open (in-process, synchronous, panics caught) with Read/Seek/ReadAt scripts, and (1/4) to make-iso / decrypt of the real binary under the same limit: exit status 0 or 1 with a message, "
              "never a goroutine dump. non-trivial = a session that opened a generated or decrypted image and read it unaligned / content that passes its parser's first magic or length check; distinct "
-             "by request list / content bytes. The fixture also holds a 5 GiB file, trees of 5-9 TiB of sparse data and a 5 TiB encrypted image; counts up to 2^32-1 and offsets 2^k+-delta (k = 31..63) are part of the request alphabet. Unit descriptors: the real binary under ulimit -n 64/256, one client reading the whole image of a tree with 3x as many files and staying connected, 2x as many idle connections coming and going - the process must survive, every read must complete, a new client must be served. Sparse PARAM.SFO files (fixture directories GAME_sfo-sparse-*, content kind sfosparse): a declared value length of 1/2/4 GiB or an entry count of 2^32 backed by the file's length - the server must survive the open, the tools must end within 3 minutes with an error",
+             "by request list / content bytes. The fixture also holds a 5 GiB file, trees of 5-9 TiB of sparse data and a 5 TiB encrypted image; counts up to 2^32-1 and offsets 2^k+-delta (k = 31..63) are part of the request alphabet. Unit descriptors: the real binary under ulimit -n 64/256, one client reading the whole image of a tree with 3x as many files and staying connected, 2x as many idle connections coming and going - the process must survive, every read must complete, a new client must be served. Sparse PARAM.SFO files (fixture directories GAME_sfo-sparse-*, content kind sfosparse): a declared value length of 1/2/4 GiB or an entry count of 2^32 backed by the file's length - the server must survive the open, the tools must end within 3 minutes with an error. Unit linkdag: the real binary under ulimit -v 3 GiB, a tree of k levels of directories each reached through f symbolic links from the level above (f^k paths, no cycle; 2^15 x 300, 2^12 x 3000, 3^9 x 400, 2^17 x 40 files by path and a harmless one), OPEN_FILE of its image in both modes: the image may be refused, the process must live and serve a probe",
         assumptions=["the address-space limit (8 GB) is an assumption of the crash oracle: it makes count-driven allocations fatal on any host",
                      "replies are not judged here (C02/C03/C13 do that): only survival, liveness and the absence of crash signatures",
                      "the tools' 3-minute bound is three orders of magnitude above their running time on these inputs (milliseconds); it stands for 'believes a number it read', not for speed"],
@@ -343,6 +343,7 @@ CHECKS = {
             dict(test="TestC04Sessions", unit="sessions", kind="rapid", checks=(1600, 48000), shards=(8, 16), bin=True),
             dict(test="TestC04Content", unit="content", kind="rapid", checks=(2400, 80000), shards=(8, 16), bin=True),
             dict(test="TestC04Descriptors", unit="descriptors", kind="enum", shards=(5, 10), bin=True),
+            dict(test="TestC04LinkDag", unit="linkdag", kind="enum", shards=(5, 9), bin=True),
         ],
     ),
 }
